@@ -12,6 +12,9 @@ import (
 	"golang.org/x/crypto/ssh"
 )
 
+// permPublicKey is the Permissions extension carrying the marshalled public key the client authenticated with.
+const permPublicKey = "sshswarm-public-key"
+
 type Conn struct {
 	swarm      *Swarm
 	remoteAddr Addr
@@ -25,11 +28,14 @@ type Conn struct {
 }
 
 func newServer(s *Swarm, netConn net.Conn) (*Conn, error) {
-	var pubKey ssh.PublicKey
 	config := &ssh.ServerConfig{
 		PublicKeyCallback: func(md ssh.ConnMetadata, pk ssh.PublicKey) (*ssh.Permissions, error) {
-			pubKey = pk
-			return &ssh.Permissions{}, nil
+			// The callback is also invoked for keys the client merely asks about, and its result is cached, so the
+			// key of the last invocation need not be the key that was proven. The permissions returned here are
+			// handed back by NewServerConn only for the key the client authenticated with.
+			return &ssh.Permissions{
+				Extensions: map[string]string{permPublicKey: string(pk.Marshal())},
+			}, nil
 		},
 	}
 	config.AddHostKey(s.signer)
@@ -38,8 +44,14 @@ func newServer(s *Swarm, netConn net.Conn) (*Conn, error) {
 	if err != nil {
 		return nil, err
 	}
-	if pubKey == nil {
+	if sconn.Permissions == nil || sconn.Permissions.Extensions[permPublicKey] == "" {
+		sconn.Close()
 		return nil, errors.New("pubkey not set after connection")
+	}
+	pubKey, err := ssh.ParsePublicKey([]byte(sconn.Permissions.Extensions[permPublicKey]))
+	if err != nil {
+		sconn.Close()
+		return nil, err
 	}
 
 	raddr := sconn.RemoteAddr().(*net.TCPAddr)
